@@ -34,6 +34,7 @@ type FuncSpec struct {
 	Tags      map[string]bool
 	Safety    map[string]bool
 	AllocVar  string // name of the parameter that bounds allocations (decoder tag)
+	Timeout   int    // per-obligation solver limit (s) for this function, if larger than the tier default
 	Pos       token.Pos
 	ParseErrs []string
 	Ghost     []GhostUpd // ghost updates performed by calls to this function (applied at call sites and at exit obligations)
@@ -113,7 +114,7 @@ func indentOf(s string) int {
 }
 
 var clauseKeywords = map[string]bool{"requires": true, "ensures": true, "loop": true, "modifies": true, "property": true,
-	"inline": true, "tag": true, "safety": true, "trusted": true, "alloc": true, "ghost": true, "let": true}
+	"inline": true, "tag": true, "safety": true, "trusted": true, "alloc": true, "ghost": true, "let": true, "timeout": true}
 
 func (db *SpecDB) readFile(e *Engine, p *packages.Package, f *ast.File) {
 	lines := contractLines(f)
@@ -309,6 +310,13 @@ func (db *SpecDB) parseClause(e *Engine, fs *FuncSpec, cl specLine) {
 		for _, t := range strings.Fields(rest) {
 			fs.Safety[t] = true
 		}
+	case "timeout":
+		n, err := strconv.Atoi(strings.TrimSpace(rest))
+		if err != nil {
+			fail(err)
+			return
+		}
+		fs.Timeout = n
 	case "alloc":
 		fs.AllocVar = rest
 	case "ghost":
